@@ -101,16 +101,18 @@ pub fn ops_payload<T, N: ArrayLength, const R: usize>() {
 }
 
 // ---- allocation failure: `alloc::alloc::alloc` may return null -------------------------------------
-#[cfg(kani)]
 pub mod failing {
     use crate::common::*;
     use core::alloc::Layout;
+    /// set by the failing allocator (the Kani stub, or the replay binary's allocator natively)
     pub static mut ALLOC_FAILED: bool = false;
     pub static mut HAE_REACHED: bool = false;
+    #[cfg(kani)]
     extern "Rust" {
         fn __rust_alloc(size: usize, align: usize) -> *mut u8;
     }
     /// nondeterministically failing allocator
+    #[cfg(kani)]
     pub unsafe fn maybe_null_alloc(layout: Layout) -> *mut u8 {
         if any_bool() {
             ALLOC_FAILED = true;
@@ -120,6 +122,7 @@ pub mod failing {
         }
     }
     /// the standard allocation-error path: record it, then end the path (it never returns)
+    #[cfg(kani)]
     pub fn hae(_layout: Layout) -> ! {
         unsafe { HAE_REACHED = true; }
         kani::assume(false);
@@ -149,17 +152,18 @@ macro_rules! c16_lattice {
         }
     };
 }
-#[cfg(kani)]
 macro_rules! c16_fail_lattice {
     ($($name:ident: $T:ty, $N:ty, $u:literal;)*) => {
         pub mod ops_fail {
-            use super::super::failing::{hae, maybe_null_alloc, ops_fail};
+            #[cfg(kani)]
+            use super::super::failing::{hae, maybe_null_alloc};
+            use super::super::failing::ops_fail;
             use crate::common::*;
             $(
-                #[kani::proof]
-                #[kani::unwind($u)]
-                #[kani::stub(alloc::alloc::alloc, maybe_null_alloc)]
-                #[kani::stub(alloc::alloc::handle_alloc_error, hae)]
+                #[cfg_attr(kani, kani::proof)]
+                #[cfg_attr(kani, kani::unwind($u))]
+                #[cfg_attr(kani, kani::stub(alloc::alloc::alloc, maybe_null_alloc))]
+                #[cfg_attr(kani, kani::stub(alloc::alloc::handle_alloc_error, hae))]
                 pub fn $name() { ops_fail::<$T, $N, 0>() }
             )*
         }
@@ -168,12 +172,10 @@ macro_rules! c16_fail_lattice {
 pub mod q {
     c16_lattice! { ops; u64_n0: u64, U0, 5; u64_n1: u64, U1, 6; u64_n3: u64, U3, 8; unit_n0: (), U0, 5; unit_n3: (), U3, 8; }
     c16_lattice! { ops_payload; n0: (), U0, 5; n1: (), U1, 6; n3: (), U3, 8; }
-    #[cfg(kani)]
     c16_fail_lattice! { u64_n0: u64, U0, 5; u64_n1: u64, U1, 6; u64_n3: u64, U3, 8; unit_n3: (), U3, 8; }
 }
 pub mod t {
     c16_lattice! { ops; u64_n2: u64, U2, 7; u64_n5: u64, U5, 10; u8_n8: u8, U8, 13; unit_n1: (), U1, 6; pad_n3: (u8, u16), U3, 8; a16_n2: A16, U2, 7; }
     c16_lattice! { ops_payload; n2: (), U2, 7; n4: (), U4, 9; n5: (), U5, 10; }
-    #[cfg(kani)]
     c16_fail_lattice! { u64_n2: u64, U2, 7; u64_n5: u64, U5, 10; u8_n8: u8, U8, 13; unit_n0: (), U0, 5; }
 }
